@@ -40,6 +40,14 @@ theorem c15_nulls (l : List (Option Text)) :
     rw [List.map_cons, List.mapM_cons, ih]
     cases a <;> rfl
 
+/-- **reordered keys and foreign documents**: reading a document does not depend on the order of its members; a document whose
+members are any permutation of what `to_json` writes reads back like the original -/
+theorem c15_reordered (m : SMap) (kvs : List (Text × JVal)) (h : kvs.Perm (match toDoc m with | .obj l => l | _ => [])) :
+    smapOfJson (.obj kvs) = some { m with sourcesContent := if allEmpty m.sourcesContent then [] else m.sourcesContent } := by
+  have hd : toDoc m = .obj (match toDoc m with | .obj l => l | _ => []) := by simp [toDoc]
+  rw [smapOfJson_perm kvs _ h, ← hd]
+  exact doc_roundtrip m
+
 /-- non-vacuity: a map with every optional field, a quote and a control character, parsed back from its bytes -/
 example : fromJson (writeSMap (SMap.mk [65, 65, 65, 65] [[97, 34, 98]] [[10]] [[]] (some [102]) (some []) (some [100])))
     = some (SMap.mk [65, 65, 65, 65] [[97, 34, 98]] [[10]] [[]] (some [102]) (some []) (some [100])) := by
